@@ -89,8 +89,22 @@ Record ctl := {
   c_pin_eq : bool;                       (* legacy passkey: the two effective pins are equal *)
   c_nc_i : bool; c_nc_r : bool;          (* answers to the numeric comparison prompt *)
   c_fdb : N;                             (* LESC passkey: first round (1..20) whose bits differ, 21 = none *)
-  c_pk_eq : bool                         (* LESC passkey: the two typed values are equal *)
+  c_pk_eq : bool;                        (* LESC passkey: the two typed values are equal *)
+  c_hi : N; c_hr : N                     (* connection handle on the central / on the peripheral: opaque keys, never inspected *)
 }.
+
+(** The connection handle is the KEY under which a stack keeps the connection record (registered link
+    key), the L2CAP/SMP instances and the LinkLayer's crypto manager; one [sst] is the value at that
+    key.  The only places where the code looks at the handle itself are the tests
+    [conn_handle is not None] of start_encryption / on_enc_req / on_enc_rsp: *)
+Definition own_handle (c : ctl) (me : bool) : option N := Some (if me then c_hr c else c_hi c).
+Definition key_for_handle (h : option N) (registered : option term) : option term :=
+  match h with Some _ => registered | None => None end.
+Definition set_handles (hi hr : N) (c : ctl) : ctl :=
+  {| c_method := c_method c; c_enc_i := c_enc_i c; c_id_i := c_id_i c; c_sign_i := c_sign_i c;
+     c_enc_r := c_enc_r c; c_id_r := c_id_r c; c_sign_r := c_sign_r c; c_bond_i := c_bond_i c; c_bond_r := c_bond_r c;
+     c_pin_eq := c_pin_eq c; c_nc_i := c_nc_i c; c_nc_r := c_nc_r c; c_fdb := c_fdb c; c_pk_eq := c_pk_eq c;
+     c_hi := hi; c_hr := hr |}.
 
 (** ediv of a distributed LTK: 0 (LESC), or the value drawn by a side *)
 Inductive ediv_t := EZero | EOf (side : bool).
@@ -368,8 +382,8 @@ Definition lesc_keys (s : sst) (ir rr : term) : sst :=
 Definition draw_nonce (me : bool) (q : pairing_part) : term := TRnd me 0 (q_nonce q).
 
 (** [LinkLayer.start_encryption(conn_handle, 0, 0)] *)
-Definition start_encryption (s : sst) : list msg :=
-  match s_enckey s with Some _ => [LEncReq] | None => [LReject] end.
+Definition start_encryption (c : ctl) (me : bool) (s : sst) : list msg :=
+  match key_for_handle (own_handle c me) (s_enckey s) with Some _ => [LEncReq] | None => [LReject] end.
 
 (** setters of the pairing part *)
 Definition mkq st me tk stk hk sh ic ir rc rr cnt nn pr ek : pairing_part :=
@@ -563,7 +577,7 @@ Definition on_pairing_random (c : ctl) (me : bool) (s : sst) (t : term) : sst * 
         let q1 := q_rr q t in
         if term_eqb (t_c1 (q_tk q) t) rc then
           let s1 := set_pp s (q_st (q_stk_key q1 (t_s1 (q_tk q) t ir)) 6) in
-          (s1, start_encryption s1)
+          (s1, start_encryption c me s1)
         else fail_with (set_pp s q1) 4
     | _, _ => (raise s, [])
     end
@@ -591,21 +605,21 @@ Definition on_dhkey_check (c : ctl) (me : bool) (s : sst) (t : term) : sst * lis
     | Some ir, Some rr, Some mk, Some l =>
         if term_eqb (t_eb mk ir rr rb) t then
           let s1 := set_pp s (q_st (q_enc (pp s) (trev l)) 13) in
-          (s1, start_encryption s1)
+          (s1, start_encryption c me s1)
         else fail_with s 11
     | _, _, _, _ => (raise s, [])
     end
   else fail_with s 8.
 
 (** ---- link layer: LL_ENC_REQ / LL_ENC_RSP / LL_START_ENC_REQ / LL_START_ENC_RSP ---- *)
-Definition on_enc_req (s : sst) : sst * list msg :=
-  match s_enckey s with
+Definition on_enc_req (c : ctl) (me : bool) (s : sst) : sst * list msg :=
+  match key_for_handle (own_handle c me) (s_enckey s) with
   | Some k => (set_ll s (Some k) (s_setenc s ++ [(t_e k, k)]) (s_encrypted s), [LEncRsp; LStartEncReq])
   | None => (s, [LReject])
   end.
 
-Definition on_enc_rsp (s : sst) : sst * list msg :=
-  match s_enckey s with
+Definition on_enc_rsp (c : ctl) (me : bool) (s : sst) : sst * list msg :=
+  match key_for_handle (own_handle c me) (s_enckey s) with
   | Some k => (set_ll s (Some k) (s_setenc s) (s_encrypted s), [])
   | None => (s, [LReject])
   end.
@@ -648,8 +662,8 @@ Definition handle (c : ctl) (me : bool) (s : sst) (m : msg) : sst * list msg :=
   | MSignInfo t => on_key_info c me s (fun k =>
       {| k_ltk := k_ltk k; k_rand := k_rand k; k_ediv := k_ediv k; k_irk := k_irk k; k_csrk := k_csrk k; k_mackey := k_mackey k;
          k_p_ltk := k_p_ltk k; k_p_rand := k_p_rand k; k_p_ediv := k_p_ediv k; k_p_irk := k_p_irk k; k_p_addr := k_p_addr k; k_p_csrk := Some t |})
-  | LEncReq => on_enc_req s
-  | LEncRsp => on_enc_rsp s
+  | LEncReq => on_enc_req c me s
+  | LEncRsp => on_enc_rsp c me s
   | LStartEncReq => on_start_enc_req s
   | LStartEncRsp => on_start_enc_rsp c me s
   | LReject => (s, [])
@@ -725,7 +739,8 @@ Definition success (s : sst) : bool := (s_state s =? 255) && negb (s_exc s) && n
 Definition failure (s : sst) : bool := (s_state s =? 0) && negb (s_exc s) && isSome (s_fail s).
 
 (** ---- concrete parameters, as given to [Pairing(...)] on each side ---- *)
-Record params := { a_lesc : bool; a_oob : bool; a_mitm : bool; a_bond : bool; a_iocap : N; a_mks : N; a_kd : N }.
+Record params := { a_lesc : bool; a_oob : bool; a_mitm : bool; a_bond : bool; a_iocap : N; a_mks : N; a_kd : N;
+                   a_handle : N   (* the connection handle of this pairing on that side's stack *) }.
 
 (** scripted user: what each device would generate and display, what the user types when a
     device asks, the answers to the numeric comparison prompt *)
@@ -754,7 +769,7 @@ Fixpoint fdr (n : nat) (k a b : N) : N :=
 (** first round 1..20 in which bit (round-1) of the two passkeys differs; 21 if none *)
 Definition first_diff_round (a b : N) : N := fdr 20 1 a b.
 
-Definition control_of (pi pr : params) (sc : script) : ctl :=
+Definition control0 (pi pr : params) (sc : script) : ctl :=
   let m := sel_method pi pr in
   {| c_method := m;
      c_enc_i := N.testbit (a_kd pi) 0; c_id_i := N.testbit (a_kd pi) 1; c_sign_i := N.testbit (a_kd pi) 2;
@@ -764,7 +779,12 @@ Definition control_of (pi pr : params) (sc : script) : ctl :=
      c_nc_i := if m =? 4 then u_nc_i sc else true;
      c_nc_r := if m =? 4 then u_nc_r sc else true;
      c_fdb := if m =? 5 then first_diff_round (u_typed_i sc) (u_typed_r sc) else 21;
-     c_pk_eq := if m =? 5 then N.eqb (u_typed_i sc) (u_typed_r sc) else true |}.
+     c_pk_eq := if m =? 5 then N.eqb (u_typed_i sc) (u_typed_r sc) else true;
+     c_hi := 0; c_hr := 0 |}.
+
+(** ... plus the two connection handles (arbitrary, the two sides' need not be equal) *)
+Definition control_of (pi pr : params) (sc : script) : ctl :=
+  set_handles (a_handle pi) (a_handle pr) (control0 pi pr sc).
 
 (** [run : params_i -> params_r -> passkeys/answers -> outcome_i * outcome_r]; randomness is
     symbolic ([TRnd], [TKey], [EOf], atom [aSkd]): the result holds for every value drawn. *)
@@ -917,7 +937,8 @@ Definition scripts_for (m : N) : list script_t :=
 Definition mk_ctl (m : N) (s : script_t) (ei ii si er ir sr bi br : bool) : ctl :=
   let '(pe, ni, nr, fdb, pk) := s in
   {| c_method := m; c_enc_i := ei; c_id_i := ii; c_sign_i := si; c_enc_r := er; c_id_r := ir; c_sign_r := sr;
-     c_bond_i := bi; c_bond_r := br; c_pin_eq := pe; c_nc_i := ni; c_nc_r := nr; c_fdb := fdb; c_pk_eq := pk |}.
+     c_bond_i := bi; c_bond_r := br; c_pin_eq := pe; c_nc_i := ni; c_nc_r := nr; c_fdb := fdb; c_pk_eq := pk;
+     c_hi := 0; c_hr := 0 |}.
 
 Definition bools : list bool := [false; true].
 Definition methods : list N := [0; 1; 2; 3; 4; 5; 6].
